@@ -1276,6 +1276,18 @@ package mcp
 //@   modifies extern
 //@   modifies fields(MemoryEventStore.nBytes), fields(MemoryEventStore.store), maps("map[string]map[string]*dataList"), maps("map[string]*dataList"), fields(dataList.first), fields(dataList.size), fields(dataList.data), allElems("[]byte")
 
+// newStream only opens the stream in the event store: it appends nothing (what is stored under an index is decided
+// where the index is handed out), and the stream starts before its first index.
+//@ func (*streamableServerConn).newStream [C08, C10]
+//@   track Append as store
+//@   track Open as open
+//@   requires c != nil
+//@   modifies *
+//@   ensures @opening-a-stream-stores-nothing calls(store) == 0 && calls(open) <= 1
+//@   ensures @a-new-stream-starts-before-its-first-index result.1 == nil ==> result.0 != nil && result.0.lastIdx == -1 && result.0.id == id && result.0.requests == requests
+//@   ensures @a-stream-the-store-refused-is-not-created calls(open) == 1 && callResult(open, 1, 0) != nil ==> result.1 != nil && result.0 == nil
+//@   ensures @the-stream-is-opened-under-this-session-and-id calls(open) == 1 ==> callArg(open, 1, 2) == old(c.sessionID) && callArg(open, 1, 3) == id
+
 // servePOST, registration of a new request stream: in one critical section, either some id of the batch is already
 // in flight (rejected, nothing registered) or routes are added for ids that had none - an existing route is never
 // overwritten (the transition invariant of cmu), so a response can never be steered to another request's exchange.
@@ -1289,7 +1301,19 @@ package mcp
 //@   track readBatch as t6
 //@   track hangResponse as t7
 //@   track newStream as t8
+//@   track Append as primeSlot
+//@   track writeEvent as primeEvent
 //@   requires c != nil && req != nil && w != nil
+// C08 (since seed C08-9: event ids denote the same message on delivery and on replay): the priming event of a request
+// stream and its empty slot in the event store are decided by ONE test in this function - the slot is reserved
+// immediately before the event is written, for the same stream, with no payload, and at most once - so the index of
+// every later event of the stream is the index it is stored under. (newStream, below, stores nothing.)
+//@   assert at call writeEvent: @the-priming-event-has-its-slot-in-the-store calls(primeEvent) == 0 && calls(primeSlot) == 1
+//@   assert at call writeEvent: @the-slot-is-an-empty-one-of-this-stream callArg(primeSlot, 1, 3) == local(stream).id && len(callArg(primeSlot, 1, 4)) == 0
+// (not stated: that the priming event has index 0 - the stream is published in c.streams before this point and the calls
+// in between may, in the engine's frame model, change its fields; see DESIGN A.6, C10-6)
+//@   assert at call writeEvent: @the-priming-event-carries-no-data $1.Name == "prime" && len($1.Data) == 0
+//@   ensures @a-slot-is-reserved-only-for-a-priming-event calls(primeSlot) == calls(primeEvent) && calls(primeEvent) <= 1
 //@   modifies *
 // C12 (nothing that failed a precondition reaches the server): a message is handed to the session's reader (sent on
 // c.incoming) only if the standard-header check, when it ran, accepted the request, and no error reply has been
@@ -1344,6 +1368,12 @@ package mcp
 //@   requires c != nil && resp != nil
 //@   modifies *
 //@   rangeloop invariant @cursor-only-moves-forward resumeID != "" ==> local(lastEventID) != ""
+// (since seed C09-9) An event that does not decode is never skipped: its id has already become the cursor, so reading on
+// would resume behind a message that was not delivered. It fails the connection - the clean error of the property.
+//@   track jsonrpc2.DecodeMessage as decode
+//@   track (*streamableClientConn).fail as failConn
+//@   rangeloop invariant @reading-continues-only-past-events-that-decoded calls(decode) == 0 || lastResult(decode, 1) == nil
+//@   ensures @an-undecodable-event-fails-the-connection calls(decode) >= 1 && lastResult(decode, 1) != nil ==> calls(failConn) >= 1 && result.2
 //@   ensures @cursor-is-never-forgotten !result.2 && resumeID != "" ==> result.0 != ""
 //@   ensures @synthetic-error-only-without-a-cursor !result.2 && calls(synthetic) >= 1 ==> result.0 == ""
 //@   ensures @an-unresumable-call-stream-that-ends-fails-the-call !result.2 && result.0 == "" && forCall != nil ==> calls(synthetic) >= 1
@@ -1535,7 +1565,18 @@ package mcp
 //@   ensures @the-headers-are-those-of-this-message-on-this-request (calls(post) >= 1 ==> callArg(std, 1, 2) == msg && callArg(base, 1, 1) == callArg(post, 1, 1))
 //@        && (calls(post) >= 2 ==> callArg(std, 2, 2) == msg && callArg(base, 2, 1) == callArg(post, 2, 1))
 // extractName decodes the params into a fresh value: nothing visible changes; only the three named methods have a name.
-//@ func extractName [C12]
+// (since seed C12-9) The name compared with Mcp-Name is read with the SDK's case-sensitive decoder - the one the
+// dispatcher decodes the params with - from the whole params, never with encoding/json: otherwise "Name" after "name"
+// would be compared with the header while the handler of "name" runs. Params that do not decode have no name.
+//@ func extractName [C12, C19]
+//@   track internal/json.Unmarshal as dec
+//@   track encoding/json.Unmarshal as stdDec
+//@   ghost named := method == "tools/call" || method == "prompts/get" || method == "resources/read"
+//@   ensures @the-name-is-read-case-sensitively-from-the-whole-params calls(stdDec) == 0 && (named ==> calls(dec) == 1 && callArg(dec, 1, 0) == params)
+//@   ensures @undecodable-params-have-no-name named && callResult(dec, 1, 0) != nil ==> !result.1
+//@   ensures @decodable-params-of-a-named-method-have-a-name named && callResult(dec, 1, 0) == nil ==> result.1
+//@   ensures @the-name-is-the-decoded-name (method == "tools/call" && result.1 ==> result.0 == callArg(dec, 1, 1).(*CallToolParams).Name) && (method == "prompts/get" && result.1 ==> result.0 == callArg(dec, 1, 1).(*GetPromptParams).Name) && (method == "resources/read" && result.1 ==> result.0 == callArg(dec, 1, 1).(*ReadResourceParams).URI)
+//@   ensures @the-params-are-decoded-as-what-the-dispatcher-decodes-them-as (method == "tools/call" ==> typeIs(callArg(dec, 1, 1), *CallToolParams)) && (method == "prompts/get" ==> typeIs(callArg(dec, 1, 1), *GetPromptParams)) && (method == "resources/read" ==> typeIs(callArg(dec, 1, 1), *ReadResourceParams))
 //@   ensures @only-named-methods-have-a-name result.1 ==> method == "tools/call" || method == "prompts/get" || method == "resources/read"
 //@ func validateMcpHeaders [C12]
 //@   track extractName as name
